@@ -470,3 +470,18 @@ func (b *vbroker) ackRead(tag int, kind byte) bool {
 	}
 	return false
 }
+
+// cutIdle: the broker closes the live connection on its own (unsolicited peer close).
+func (b *vbroker) cutIdle() {
+	verifLock()
+	var c *vconn
+	if n := len(b.conns); n > 0 && !b.conns[n-1].closed && !b.conns[n-1].eof {
+		c = b.conns[n-1]
+		c.eof = true
+		b.ev("c" + itoa(c.id) + ":peerclose")
+	}
+	verifUnlock()
+	if c != nil {
+		c.signal()
+	}
+}
